@@ -185,3 +185,31 @@ func VerifHarness_C06_SupersetAction() {
 		verifReach("nonempty")
 	}
 }
+
+// more matches than any internal re-ranking window: enhancement on still returns them all
+func VerifHarness_C06_SupersetMany() {
+	var cmds []Command
+	for i := 0; i < 56; i++ {
+		c := Command{Command: "snap" + string(rune('a'+i%26)) + string(rune('a'+i/26)), Description: "snapshot volume " + string(rune('a'+i%26))}
+		vFill(&c)
+		cmds = append(cmds, c)
+	}
+	db := &Database{Commands: cmds}
+	db.BuildUniversalIndex()
+	db.buildTFIDFSearcher()
+	limit := []int{60, 100}[verifIntRange("limit", 0, 1)]
+	off := db.SearchUniversal("snapshot", SearchOptions{Limit: limit, AllPlatforms: true})
+	on := db.SearchUniversal("snapshot", SearchOptions{Limit: limit, AllPlatforms: true, UseNLP: true})
+	verifAssert(len(off) == 56, "C06: every matching command is returned when the limit allows")
+	for _, a := range off {
+		found := false
+		for _, b := range on {
+			if a.Command == b.Command {
+				found = true
+			}
+		}
+		verifAssert(found, "C06: a command returned with enhancement off is still a candidate with it on")
+	}
+	verifReach("checked")
+	verifReach("nonempty")
+}
